@@ -159,6 +159,9 @@ class DictionaryDataBase(DataBase):
             Index of the data to be updated.
         """
         with self._lock:
+            if index not in self.database:
+                # The object was deleted (or garbage collected) meanwhile: do not bring it back
+                return False
             self.database[index] = data
             return True
 
